@@ -634,6 +634,58 @@ func (panickyP2Profile) GetClaims() psatoken.IClaims {
 	}}
 }
 
+// ---- an extension whose own claim has a SLOW codec of its own (a value that
+// is fetched from / checked against something outside the process): calls
+// that are in flight at the same time really overlap inside the library's
+// struct walkers ----
+
+const SlowP2Name = "http://example.com/verif/slow-claim-on-p2"
+
+type SlowStamp int64
+
+func (v SlowStamp) MarshalCBOR() ([]byte, error) {
+	time.Sleep(3 * time.Millisecond)
+	return hem.Marshal(int64(v))
+}
+func (v *SlowStamp) UnmarshalCBOR(b []byte) error {
+	time.Sleep(3 * time.Millisecond)
+	var x int64
+	if err := hdm.Unmarshal(b, &x); err != nil {
+		return err
+	}
+	*v = SlowStamp(x)
+	return nil
+}
+
+type SlowP2Claims struct {
+	psatoken.P2Claims
+	Stamp *SlowStamp `cbor:"-75960,keyasint,omitempty" json:"stamp,omitempty"`
+}
+
+func (o SlowP2Claims) MarshalCBOR() ([]byte, error) { return encoding.SerializeStructToCBOR(hem, &o) }
+func (o *SlowP2Claims) UnmarshalCBOR(data []byte) error {
+	return encoding.PopulateStructFromCBOR(hdm, data, o)
+}
+func (o SlowP2Claims) MarshalJSON() ([]byte, error) { return encoding.SerializeStructToJSON(&o) }
+func (o *SlowP2Claims) UnmarshalJSON(data []byte) error {
+	return encoding.PopulateStructFromJSON(data, o)
+}
+
+type slowP2Profile struct{}
+
+func (slowP2Profile) GetName() string { return SlowP2Name }
+func (slowP2Profile) GetClaims() psatoken.IClaims {
+	p := eat.Profile{}
+	if err := p.Set(SlowP2Name); err != nil {
+		panic(err)
+	}
+	return &SlowP2Claims{P2Claims: psatoken.P2Claims{
+		Profile:          &p,
+		SwComponents:     &psatoken.SwComponents[*psatoken.SwComponent]{},
+		CanonicalProfile: SlowP2Name,
+	}}
+}
+
 // faultyFactoryProfile: a profile whose factory returns nil or panics.
 type faultyFactoryProfile struct {
 	name string
